@@ -1,1 +1,12 @@
 import AL.Props.C04Lex
+#print axioms AL.C04.lex_spelling_counterexample
+#print axioms AL.C04.lex_spelling'
+#print axioms AL.C04.lexExpression_spelling
+#print axioms AL.C04.lex_well_ended
+#print axioms AL.C04.lex_tiles
+#print axioms AL.C04.lex_positions
+#print axioms AL.C04.lex_offsets
+#print axioms AL.C04.lex_complete
+#print axioms AL.C04.json_gap
+#print axioms AL.C04.json_gap_rejected
+#print axioms AL.C04.json_gap_accepted
